@@ -2,7 +2,7 @@
    `Eval vm_compute` inside coqc can be compared textually on a sub-sample of every run (DESIGN 2.4: bounds the trust in
    extraction and in the driver's number conversion).  Definitions only. *)
 From Coq Require Import ZArith List Bool.
-From BM Require Import Model.BlasC13.
+From BM Require Import Model.BlasC13 Model.BlasC13Expr.
 Import ListNotations.
 Local Open Scope Z_scope.
 
@@ -22,4 +22,17 @@ Definition vfinal_code (f : vfinal) : list Z :=
   | GNoCall => [0]
   | GAbort => [2]
   | GBlas k => [1; v_site k; trans_code (v_ta k); v_m k; v_n k; v_pa k; v_lda k; v_px k; v_incx k; v_py k; v_incy k; gemv_info k]
+  end.
+
+(* expression cases (Model/BlasC13Expr.v over the Gaussian integers): the scalars, the resolved operand views and the verdict *)
+Definition mat_code (a : mat) : list Z := [mbase a; s0 a; s1 a; rows a; cols a; if mconj a then 1 else 0].
+Definition vec_code (x : vec) : list Z := [vbase x; inc x; len x; if vconj x then 1 else 0].
+Definition gplan_code (p : gplan gI) : list Z :=
+  match p with
+  | GpNothing _ => [0]
+  | GpCall _ alpha beta a b c f => [1; fst alpha; snd alpha; fst beta; snd beta] ++ mat_code a ++ mat_code b ++ mat_code c ++ final_code f
+  end.
+Definition vplan_code (p : vplan gI) : list Z :=
+  match p with
+  | VpCall _ alpha beta m x y f => [1; fst alpha; snd alpha; fst beta; snd beta] ++ mat_code m ++ vec_code x ++ vec_code y ++ vfinal_code f
   end.
